@@ -21,7 +21,10 @@ RULE = ("(1) value tables: Nodes.typed_value on every text of length <= 3 over a
         "the set must go ahead and every target hold THAT TEXT, theorem literal_text_kept) x every modelled format: the matched nodes are gathered by the "
         "real evaluator on a twin, set_value(mustexist=True) runs on the real document, and the WHOLE document afterwards "
         "(canonical form incl. anchors) must equal the Lean specification setSpec (proved equal to the model); a quarter of the "
-        "cases are also dumped with yamlpath's editor and reloaded with its strict loader and the data compared; "
+        "cases are also dumped with yamlpath's editor and reloaded with its strict loader and the data compared - and, when the "
+        "unedited document dumps with all its anchor names, the anchor name (or none) of every value node of the DUMPED TEXT "
+        "(ruamel compose, document order) must equal that of the edited document in memory (anchored scalars with and without "
+        "aliases; also in part (5)); "
         "(3) histories of <= 8 (quick) / <= 30 (thorough) mixed set / delete / create steps compared after every step and at the end; "
         "(4) real code only (merge keys are outside the model): seeded YAML texts with merge keys (1-3 anchored source maps "
         "holding plain and anchored scalars, nested maps/lists, sources merging sources; consumers merging one or several "
@@ -1563,6 +1566,7 @@ def float_case(case, bump, viol, keys):
         return
     pre = ed.dump_reload(ed.build(j))
     reload_leg = pre[0] == "ok" and pre[1] == codec.strip_anchors(j)
+    anchors_leg = reload_leg and pre[3] == ed.anchor_seq(j)       # the unedited document dumps with every anchor name in place
     doc = ed.build(j)
     proc = Processor(core.quiet_logger(), doc)
     if mode == "obj":
@@ -1602,6 +1606,16 @@ def float_case(case, bump, viol, keys):
         got = sorted(set(json.dumps(node_at(rl[1], a)) for a in addrs if _has(rl[1], a)))
         viol.append(("float-set:reload:written-number-differs" + known,
                      what + ": dump + strict reload holds %s, written %s: %r" % (got, case["fv"], rl[2][:200]), rep))
+    elif rl[0] == "ok" and anchors_leg:
+        bump("float-set:reload:anchor-names-compared")
+        if rl[3] != ed.anchor_seq(after):
+            viol.append(("float-set:reload:anchor-names-differ", what + ": " + anchor_diff(after, rl[3]) + ": %r" % rl[2][:200], rep))
+
+
+def anchor_diff(after, seq):
+    """The anchor names of the value nodes in document order: edited document in memory vs its dump."""
+    return "the value nodes of the edited document carry the anchors %s (document order, - = none), the dumped text %s" % (
+        " ".join("&" + a if a else "-" for a in ed.anchor_seq(after)), " ".join("&" + a if a else "-" for a in (seq or [])))
 
 
 def _has(j, addr):
@@ -1724,11 +1738,14 @@ def _job(cases):
             if pre[0] != "ok" or pre[1] != codec.strip_anchors(j):
                 reload_leg = False
                 bump("reload:skipped-original-does-not-roundtrip")
+            anchors_leg = reload_leg and pre[3] == ed.anchor_seq(j)
         try:
             res, after, rl = real_set(j, path, v, case["fmt"], reload_leg)
         except codec.OutOfModel:
             stats["oom"] += 1
             continue
+        if rl is not None and len(rl) > 3 and not (reload_leg and anchors_leg):
+            rl = rl[:3]         # the unedited document does not reload with its anchor names: names not compared
         if rename:
             req = {"op": "C03.rename", "doc": j, "addrs": addrs, "key": v}
         else:
@@ -1797,6 +1814,12 @@ def judge(case, addrs, rename, res, after, rl, ans, bump, viol, disag, samples, 
             viol.append(("reload:" + rl[0] + (":" + rl[1] if rl[1] else ""), "the edited document does not dump/reload with yamlpath's own editor and strict loader: %r" % rl[2][:200], rep))
         elif rl[0] == "ok" and case["fmt"] in FMT_RELOADABLE and rl[1] != codec.strip_anchors(after):
             viol.append(("reload:data-differs", "dump + strict reload of the edited document yields different data: %r" % rl[2][:200], rep))
+        elif rl[0] == "ok" and len(rl) > 3 and rl[1] == codec.strip_anchors(after):
+            # "every ... anchor of the document is exactly as before": the anchor NAMES the reloaded nodes carry
+            bump("reload:anchor-names-compared")
+            if rl[3] != ed.anchor_seq(after):
+                viol.append(("reload:anchor-names-differ", "after set_value(%s, %r, %s): %s: %r" % (
+                    case["path"], case["v"][1], case["fmt"], anchor_diff(after, rl[3]), rl[2][:200]), rep))
     if len(samples) < 2 and len(addrs) > 1:
         samples.append({"path": case["path"], "addrs": addrs, "v": case["v"], "fmt": case["fmt"]})
 
